@@ -720,13 +720,38 @@ void j_and(Ctx & c, int64_t x, int64_t y, int64_t)
     if(r.v != (x & y)) c.violation("and/wrong-value", (int)ci, x, y, 0, i2s(r.v), i2s(x & y));
     }
   }
-void c18_init() { SHL = resolve("shl"); SHR = resolve("shr"); AND = resolve("and_"); }
+Fn SHL_T[5], SHR_T[5];
+const char * SHIFT_TAGS[5] = { "u32", "u8", "sz", "i64", "i16" };
+// shift count carried by another static type than int; c = index into SHIFT_TAGS
+void j_shift_typed(Ctx & c, int64_t x, int64_t r, int64_t k)
+  {
+  if(k < 0 || k > 4 || !model_finite(x) || r > 63) return;
+  if(k != 3 && r < 0) return;                       // only the int64 count can carry a negative value
+  if(k == 3 && r < (int64_t)INT32_MIN) return;
+  c.stratum("typed-shift-count");
+  for(size_t ci = 0; ci < g_cfgs.size(); ++ci)
+    {
+    CallRes l = c.call(SHL_T[k].f[ci], x, r), rr = c.call(SHR_T[k].f[ci], x, r);
+    if(l.sig || rr.sig) { c.signal_event((int)ci, SHL_T[k].entry.c_str(), x, r, l.sig ? l.sig : rr.sig); continue; }
+    if(r < 0) { if(!model_isnan(l.v) || !model_isnan(rr.v)) c.violation(SHL_T[k].entry + "/negative-count/not-nan", (int)ci, x, r, k, i2s(l.v), "NaN"); continue; }
+    i128 fl = (i128)x >> r, p = (i128)x * ((i128)1 << r);
+    if((i128)rr.v != fl) c.violation(SHR_T[k].entry + "/wrong-value", (int)ci, x, r, k, i2s(rr.v), i128s(fl));
+    if(p >= RAW_LOWEST && p <= RAW_MAX) { if((i128)l.v != p) c.violation(SHL_T[k].entry + "/in-range/wrong-value", (int)ci, x, r, k, i2s(l.v), i128s(p)); }
+    else if((x > 0 && l.v < 0) || (x < 0 && l.v > 0)) c.violation(SHL_T[k].entry + "/out-of-range/opposite-sign", (int)ci, x, r, k, i2s(l.v), "same sign as x or zero");
+    }
+  }
+void c18_init() { for(int k = 0; k < 5; ++k) { SHL_T[k] = resolve((std::string("shl_") + SHIFT_TAGS[k]).c_str()); SHR_T[k] = resolve((std::string("shr_") + SHIFT_TAGS[k]).c_str()); } SHL = resolve("shl"); SHR = resolve("shr"); AND = resolve("and_"); }
 extern Property P_C18;
 void c18_run(Ctx & c)
   {
-  const Check & S = P_C18.checks[0], & A = P_C18.checks[1];
+  const Check & S = P_C18.checks[0], & A = P_C18.checks[1], & ST = P_C18.checks[2];
   const auto & L = lattice();
   uint64_t idx = 0;
+  for(int64_t k = 0; k < 5; ++k)
+    {
+    for(int64_t x : lattice_small()) for(int64_t r = (k == 3 ? -3 : 0); r <= 63; ++r) if(c.mine(idx++)) c.run_check(ST, x, r, k);
+    uint64_t m = c.share(c.n(40000, 4000000)); for(uint64_t i = 0; i < m; ++i) c.run_check(ST, (i & 1) ? c.rng.logu() : c.rng.finite(), c.rng.range(0, 63), k);
+    }
   for(int64_t x : L) for(int64_t r = -70; r <= 63; ++r) if(c.mine(idx++)) c.run_check(S, x, r);
   for(int64_t x : L) for(int64_t r : { (int64_t)INT32_MIN, (int64_t)INT32_MIN + 1, (int64_t)-65536, (int64_t)-64, (int64_t)-63, (int64_t)-1 }) if(c.mine(idx++)) c.run_check(S, x, r);
   for(int64_t a : L) for(int64_t b : L) if(c.mine(idx++)) c.run_check(A, a, b);
@@ -740,7 +765,8 @@ void c18_run(Ctx & c)
     }
   }
 Property P_C18 = { "C18", c18_init, c18_run,
-  { { "shift", j_shift, "x<<r and x>>r; a raw, b count in [INT_MIN,63]" }, { "and", j_and, "x&y; a,b raw" } },
+  { { "shift", j_shift, "x<<r and x>>r; a raw, b count in [INT_MIN,63]" }, { "and", j_and, "x&y; a,b raw" },
+    { "shift_typed", j_shift_typed, "x<<r, x>>r with the count carried by unsigned, uint8_t, size_t, int64_t, short (c = 0..4); a raw, b count" } },
   { "negative-count", "count=0", "count=63", "count-1..62", "shl-in-range", "shl-out-of-range", "and" },
   "negative shift count, or left shift whose exact product leaves [lowest(),max()]; distinct by (x,r)",
   { "lattice x every count in [-70,63]" }, { "lattice x every count in [-70,63]" } };
